@@ -183,9 +183,10 @@ Definition unit_is_wrapped (t : list (string * hook)) (u : unit_spec) : bool :=
    (kf_C15_1, the V2 borrow unit, is repaired: LiquidateBorrows runs each borrow inside
    ApplyFuncIfNoError since fix C09-F3 / C15-F1) *)
 Definition kf_C15_3 (uid : string) : bool := String.eqb uid "v2.surplusdebt".
-(* environment class: the liquidation parameters are absent from the parameter store; GetParams
-   (unwrapped prologue of both sweeps) panics *)
-Definition kf_C15_4 (params_present : bool) : bool := negb params_present.
+(* (a former class kf_C15_4 "liquidation parameters absent from the parameter store" was a false
+   alarm of the harness, not a finding: every module's InitGenesis - also when the module is added
+   by an upgrade - writes its parameters and no message deletes them, so the state is unreachable;
+   the harness no longer fabricates it and parameter presence is a stated assumption.) *)
 Definition unit_known_unwrapped (u : unit_spec) : bool := kf_C15_3 (u_id u).
 
 (* ------------------------------------------------------------------------------------------ *)
